@@ -34,6 +34,10 @@ func (st *State) strLit(s string) Value {
 			}
 			st.assume(and(facts...))
 		}
+		if len(s) == 1 && s[0] < 128 {
+			// a one-character literal is the string of that rune / byte (WriteRune, WriteByte)
+			st.assume(fmt.Sprintf("(and (= %s (str_of_rune %d)) (= %s (str_of_byte %d)))", name, s[0], name, s[0]))
+		}
 	}
 	return Value{K: VStr, T: name, Ty: types.Typ[types.String]}
 }
